@@ -741,3 +741,27 @@ func keysOf(s *jshape) string {
 	sort.Strings(ks)
 	return "{" + strings.Join(ks, ",") + "}"
 }
+
+func init() {
+	register(&Rule{Name: "JSON-OMITEMPTY", Floor: 1, Run: ruleJSONOmitEmpty,
+		Doc: "no slice, map, pointer or interface field of a type that is hashed or compared through its JSON form carries omitempty: an empty value and an absent one would be written alike, so the merge would take a profile's content-less extension and a certificate's explicitly empty one for identical"})
+}
+
+// ruleJSONOmitEmpty re-uses the type walk of HASH-SHAPE and keeps its omitempty obligations only (the merge compares the
+// same JSON forms the hash is computed from).
+func ruleJSONOmitEmpty(c *Ctx, r *Rep) {
+	sub := RunRule(c, rules["HASH-SHAPE"])
+	n := 0
+	for _, o := range sub.Obs {
+		if strings.HasPrefix(o.Key, "visible|") {
+			n++
+		}
+		if strings.HasPrefix(o.Key, "no-omitempty|") {
+			r.Obs = append(r.Obs, Obligation{Rule: r.rule, Key: o.Key, Pos: o.Pos, Expected: o.Expected, Found: o.Found, Status: o.Status})
+		}
+		if strings.HasPrefix(o.Key, "anchor:") {
+			r.Undecided(o.Key, o.Pos, o.Found)
+		}
+	}
+	r.Ok("fields-scanned", "", "the fields of the hashed and compared types were looked at", sprintf("%d", n))
+}
